@@ -170,7 +170,8 @@ def run_scalars(ctx):
             ctx.nontrivial(['ComplexSector', mod, arg, d, ctx.shard])
     # discrete sets
     arr1, arr2 = MathArray([[1, 0], [0, 1]]), MathArray([1, 2, 3])
-    for members in [(1, 3, 5, 7, 9), (3.5,), (1j, 2, -0.5), (arr1, arr2), (1, arr1), (0, 0.0)]:
+    for members in [(1, 3, 5, 7, 9), (3.5,), (1j, 2, -0.5), (arr1, arr2), (1, arr1), (0, 0.0),
+                    (2 ** 53 + 1, 10 ** 30 + 1, 3 ** 40 + 2), (2 ** 63 + 5,), (True, 2), (np.int64(7), np.float32(0.5))]:      # (large ints, numpy scalars: members as listed)
         s = DiscreteSet(members if len(members) > 1 else members[0])
         seen = set()
         for d in range(ndraw * 2):
